@@ -134,7 +134,13 @@ def emit_item(t):
                 else: pat = f"{t.name}Mut::{vn} {{ " + ", ".join(n for n, _ in fs) + " }"
                 sets = " ".join(f"{j} => {{ *{bind(j, n)} = from_raw::<{ft.rs()}>(img_); }}" for j, (n, ft) in enumerate(fs) if ft.sized)
                 marms.append(f"({i}, {pat}) => {{ match fi_ {{ {sets} _ => panic!(\"harness: no such sized field\") }} \"ok\".into() }}")
-            o.append(f"impl Editable for {t.name} {{ fn edit(&mut self, op: &Op) -> String {{ match op {{ Op::SetField(v_, fi_, img_) => {{ #[allow(unused_variables, unreachable_patterns)] match (*v_, self.as_mut()) {{ {' '.join(marms)} _ => \"novariant\".into() }} }} Op::Assign(d) => match self.assign_in_place(de::<Self>(d)) {{ Ok(_) => \"ok\".into(), Err(e) => format!(\"err:{{}}\", err_str(&e)) }}, _ => panic!(\"harness: operation not applicable to this type\") }} }} }}")
+            larms = []
+            for i, (vn, k, fs) in enumerate(t.variants):
+                if k == "unit" or fs[-1][1].sized: continue
+                if k == "tuple": pat = f"{t.name}Mut::{vn}(" + ", ".join(bind(j, n) for j, (n, _) in enumerate(fs)) + ")"
+                else: pat = f"{t.name}Mut::{vn} {{ " + ", ".join(n for n, _ in fs) + " }"
+                larms.append(f"{pat} => {bind(len(fs) - 1, fs[-1][0])}.edit(o_),")
+            o.append(f"impl Editable for {t.name} {{ fn edit(&mut self, op: &Op) -> String {{ match op {{ Op::Last(o_) => {{ #[allow(unused_variables, unreachable_patterns)] match self.as_mut() {{ {' '.join(larms)} _ => \"novariant\".into() }} }} Op::SetField(v_, fi_, img_) => {{ #[allow(unused_variables, unreachable_patterns)] match (*v_, self.as_mut()) {{ {' '.join(marms)} _ => \"novariant\".into() }} }} Op::Assign(d) => match self.assign_in_place(de::<Self>(d)) {{ Ok(_) => \"ok\".into(), Err(e) => format!(\"err:{{}}\", err_str(&e)) }}, _ => panic!(\"harness: operation not applicable to this type\") }} }} }}")
             hooks = "default_hooks!();" if t.has_default else ""
             o.append(f"impl DynTarget for {t.name} {{ {hooks} unsafe fn dyn_emplace<'a>(d: &D, bytes: &'a mut [u8]) -> Result<&'a mut Self, Error> {{ match d {{ D::Enum(i, f, l) => {{ let _ = (f, l); match i {{ {' '.join(arms)} _ => panic!(\"harness: bad variant\") }} }} {dflt} _ => panic!(\"harness: bad initialiser for {t.name}\") }} }} }}")
     return "\n".join(o)
